@@ -11,7 +11,11 @@
           rendering; a rendered document must be accepted, a mutated one rejected.  When the implementation
           disagrees, the class says where the fault lies:
             spec-gap-<mutation class>   the shipped specification does not express the rule even when read
-                                        declaratively (`Spec.conf` on the regenerated term disagrees with the rules)
+                                        declaratively (`Spec.conf` on the regenerated term disagrees with the rules);
+                                        for the specification the crate ships NOW this verdict is unreachable:
+                                        Parsley.C10.rendered_conforms / mutated_rejected prove the declarative reading
+                                        agrees with the rules on every well-formed document and valid mutation -- it
+                                        fires only when the Rust specification is changed (and the proofs stop building)
             <repair flag>               the shipped specification is right, the checking engine is not: the name of
                                         the single model repair that removes the disagreement (C08 classifier)
 -/
